@@ -1,12 +1,44 @@
 """Texts for MANIFEST.json, per property."""
-SIM = 'seeded deterministic simulation of two real endpoints + simulated network/apps; '
-TEXT = {
- 'C17': {'level': 'Exploration: thousands of seeded simulated conversations in which live h2-to-h2 traffic is corrupted (bit flips, field rewrites, drop/dup/swap/truncate, injected and adversary frames, HPACK garbage, cuts, 1-byte segmentation) in realistic deep connection states; every receive_data outcome must be a list or a ProtocolError. Sampling, not proof; right level because the input space is unbounded and the failures need state + damage to line up.',
-         'ref': 'DESIGN.md 6/C17', 'note': 'hyperframe/hpack as installed are trusted; fault catalogue of section 2.4',
-         'technique': 'deterministic simulation + byte/frame fault injection, exception-type oracle'},
+from . import props
+
+SIM = ('Exploration by deterministic simulation: seeded runs of two real H2Connection endpoints driven by simulated '
+       'applications over a simulated duplex byte network (arbitrary segmentation, stalls, crossing directions, misuse, '
+       'and - where listed - byte/frame corruption and an adversary peer), ')
+NOTE = ('Sampling, not proof. Trusted base: CPython, hyperframe/hpack as installed, the oracle codec / reference HPACK '
+        'decoder / wire tracker of h2sim (self-tested by setup_cmd against RFC vectors and differentially).')
+
+ORACLE = {
+ 'C02': 'every output byte parsed by an independent codec; per-call frame specification (ids, flags, padding, priority fields, codes, increments, settings, payloads) and MAX_FRAME_SIZE as received at emission time',
+ 'C03': 'send windows recomputed from delivered SETTINGS/WINDOW_UPDATE and emitted DATA only; compared with local_flow_control_window after every step and with every send_data outcome',
+ 'C04': 'advertised windows recomputed from acknowledged INITIAL_WINDOW_SIZE, emitted WINDOW_UPDATE and delivered DATA; compared with remote_flow_control_window after every step (also after failing calls); overrun <=> FLOW_CONTROL_ERROR',
+ 'C05': 'credit accounting of acknowledge_received_data vs emitted WINDOW_UPDATE; windows never above maximum; progress at every quiescent point (all received bytes acknowledged => positive windows)',
+ 'C07': 'per-stream grammar automaton over the returned events only, for client and server roles, including related-event links',
+ 'C17': 'receive_data returns a list or raises ProtocolError - anything else is a violation (signature: exception type @ raising function)',
+ 'C18': 'exactly one GOAWAY per raising receive_data, code = exception code = category assigned by an independent classifier to the offending delivered frame, last-stream-id = highest peer-opened stream',
+ 'C19': 'after any close (GOAWAY sent/received, connection error) only GOAWAY frames are emitted and every frame-producing call raises ProtocolError',
+ 'C26': 'per delivered PING exactly one PingReceived and one PING ACK with identical payload in order; PING ACK never answered; ping() emits exactly one PING and accepts only 8-byte bytes',
+ 'C29': 'every raising public call raises an h2 exception (or the documented ValueError/TypeError), emits no bytes, and uses NoSuchStreamError / StreamClosedError for never-used / collected streams',
 }
-NOT_APPLICABLE = []
+TECH = {
+ 'C02': 'deterministic simulation, independent wire tap, call-to-frames specification oracle',
+ 'C03': 'deterministic simulation with crossing WINDOW_UPDATE/SETTINGS, wire-derived send-window oracle',
+ 'C04': 'deterministic simulation with lazy/failing window calls and corrupted DATA, wire-derived receive-window oracle',
+ 'C05': 'deterministic simulation with lazy acknowledgement schedules, conservation + bounded-liveness oracle',
+ 'C07': 'deterministic simulation with adversary/fault injection, event-grammar automaton',
+ 'C17': 'deterministic simulation + byte/frame fault injection, exception-type oracle',
+ 'C18': 'deterministic simulation + fault injection, independent error classifier',
+ 'C19': 'deterministic simulation with close by every route followed by call/frame tails',
+ 'C26': 'deterministic simulation with ping bursts, duplication faults, exactly-once oracle',
+ 'C29': 'deterministic simulation with 40% misuse calls incl. collected streams, exception/no-output oracle',
+}
+TEXT = {}
+for pid, spec in props.SPECS.items():
+    profs = ', '.join(p for p, _ in spec.quick)
+    TEXT[pid] = {
+        'level': SIM + 'profiles %s. Oracle: %s. Failures are minimised by delta debugging to a replayable event trace and re-confirmed in a fresh interpreter.' % (profs, ORACLE.get(pid, 'see DESIGN.md')),
+        'ref': 'DESIGN.md section 6 / %s' % pid,
+        'note': NOTE,
+        'technique': TECH.get(pid, 'deterministic simulation with fault injection'),
+    }
 ALL = ['C%02d' % i for i in range(1, 30)]
-def _na():
-    return [{'property_id': p, 'reason': 'check not yet built in this round (planned, see DESIGN.md section 6); not a claim of inapplicability'} for p in ALL if p not in TEXT]
-NOT_APPLICABLE = _na()
+NOT_APPLICABLE = [{'property_id': p, 'reason': 'check not yet built in this round (planned, see DESIGN.md section 6); not a claim of inapplicability'} for p in ALL if p not in TEXT]
